@@ -27,6 +27,8 @@ func main() {
 	s += "(* queue_len - future_slots - <the literal 120 of gapInReceivingQueueLocked>, probed as -gap(0,0) *)\n"
 	s += fmt.Sprintf("Definition gap_slack : Z := %d.\n", c.GapSlack)
 	s += fmt.Sprintf("Definition agent_window_ms : Z := %d.\n", c.AgentWindowMs)
+	s += "(* number of FlushAllDataSingleStep calls per shard in Agent.FlushAllData, probed by running it *)\n"
+	s += fmt.Sprintf("Definition flush_all_steps : Z := %d.\n", c.FlushAllSteps)
 	rs := make([]string, len(c.Resolutions))
 	mx := int64(0)
 	for i, r := range c.Resolutions {
